@@ -1136,6 +1136,11 @@ class OFConnection (object):
         continue
 
       message_length = message[2] << 8 | message[3]
+      if message_length < 8:
+        # Shorter than an OpenFlow header -- we can't resynchronize.
+        self.log.error('Bad OpenFlow message length %s', message_length)
+        self.close()
+        break
       if message_length > len(message):
         break
 
